@@ -34,6 +34,8 @@ use rustc_hash::FxHasher;
 use oxidd_core::error::{DuplicateVarName, OutOfMemory};
 use oxidd_core::function::EdgeOfFunc;
 #[cfg(oxidd_verif)]
+use oxidd_core::util::verif_alloc as va;
+#[cfg(oxidd_verif)]
 use oxidd_core::util::verif_locks as vl;
 use oxidd_core::util::{AbortOnDrop, AllocResult, Borrowed, DropWith, VarNameMap};
 use oxidd_core::{DiagramRules, InnerNode, LevelNo, ManagerEventSubscriber, Tag, VarNo};
@@ -199,6 +201,23 @@ struct SharedStoreState {
     gc_lwm: u32,
     /// High water mark for background garbage collection (see [`GCState`])
     gc_hwm: u32,
+}
+
+#[cfg(oxidd_verif)]
+impl SharedStoreState {
+    /// Snapshot for the allocator event log
+    fn verif_snapshot(&self) -> va::Shared {
+        va::Shared {
+            node_count: self.node_count,
+            allocated: self.allocated,
+            lists: self.next_free.len() as u32,
+            gc_state: match self.gc_state {
+                GCState::Disabled => 0,
+                GCState::Init => 1,
+                GCState::Triggered => 2,
+            },
+        }
+    }
 }
 
 #[repr(align(64))] // all fields on a single cache line
@@ -545,6 +564,8 @@ where
                 state.initialized.set(0);
                 state.current_store.set(addr(self));
                 debug_assert_eq!(state.node_count_delta.get(), 0);
+                #[cfg(oxidd_verif)]
+                va::log(addr(self), va::Kind::SessionBegin, None);
                 Some(LocalStoreStateGuard(self))
             } else {
                 None
@@ -567,6 +588,16 @@ where
                     let (next_free, slot) = unsafe { self.use_free_slot(id) };
                     state.next_free.set(next_free);
                     state.node_count_delta.set(delta);
+                    #[cfg(oxidd_verif)]
+                    va::log(
+                        addr(self),
+                        va::Kind::Alloc {
+                            slot: id,
+                            source: va::Source::LocalList,
+                            next: next_free,
+                        },
+                        None,
+                    );
                     return Ok((id, slot));
                 }
 
@@ -581,6 +612,16 @@ where
                     let slot = unsafe { &mut *slots.get_unchecked(index as usize).get() };
                     state.initialized.set(index + 1);
                     state.node_count_delta.set(delta);
+                    #[cfg(oxidd_verif)]
+                    va::log(
+                        addr(self),
+                        va::Kind::Alloc {
+                            slot: index + TERMINALS as u32,
+                            source: va::Source::LocalChunk,
+                            next: index + 1,
+                        },
+                        None,
+                    );
                     return Ok((index + TERMINALS as u32, slot));
                 }
 
@@ -653,6 +694,16 @@ where
                 // SAFETY: `id` is the ID of a free slot, we have exclusive access
                 let (next_free, slot) = unsafe { self.use_free_slot(id) };
                 local.next_free.set(next_free);
+                #[cfg(oxidd_verif)]
+                va::log(
+                    addr(self),
+                    va::Kind::Alloc {
+                        slot: id,
+                        source: va::Source::SharedList,
+                        next: next_free,
+                    },
+                    Some(shared.verif_snapshot()),
+                );
                 return Ok((id, slot));
             }
 
@@ -661,9 +712,35 @@ where
             if (index as usize + CHUNK_SIZE as usize) < slots.len() {
                 shared.allocated = (index / CHUNK_SIZE + 1) * CHUNK_SIZE;
                 local.initialized.set(index + 1);
+                #[cfg(oxidd_verif)]
+                va::log(
+                    addr(self),
+                    va::Kind::Alloc {
+                        slot: index + TERMINALS as u32,
+                        source: va::Source::Chunk,
+                        next: index + 1,
+                    },
+                    Some(shared.verif_snapshot()),
+                );
             } else if (index as usize) < slots.len() {
                 shared.allocated += 1;
+                #[cfg(oxidd_verif)]
+                va::log(
+                    addr(self),
+                    va::Kind::Alloc {
+                        slot: index + TERMINALS as u32,
+                        source: va::Source::Single,
+                        next: 0,
+                    },
+                    Some(shared.verif_snapshot()),
+                );
             } else {
+                #[cfg(oxidd_verif)]
+                va::log(
+                    addr(self),
+                    va::Kind::AllocFail { delta },
+                    Some(shared.verif_snapshot()),
+                );
                 return Err(OutOfMemory);
             }
             // SAFETY: `index` is in bounds, the slot is uninitialized
@@ -676,15 +753,41 @@ where
                 if next_free != 0 {
                     shared.next_free.push(next_free);
                 }
+                #[cfg(oxidd_verif)]
+                va::log(
+                    addr(self),
+                    va::Kind::Alloc {
+                        slot: id,
+                        source: va::Source::ForeignList,
+                        next: next_free,
+                    },
+                    Some(shared.verif_snapshot()),
+                );
                 return Ok((id, slot));
             }
 
             let index = shared.allocated;
             let slots = &self.inner_nodes.slots;
             if (index as usize) >= slots.len() {
+                #[cfg(oxidd_verif)]
+                va::log(
+                    addr(self),
+                    va::Kind::AllocFail { delta },
+                    Some(shared.verif_snapshot()),
+                );
                 return Err(OutOfMemory);
             }
             shared.allocated += 1;
+            #[cfg(oxidd_verif)]
+            va::log(
+                addr(self),
+                va::Kind::Alloc {
+                    slot: index + TERMINALS as u32,
+                    source: va::Source::ForeignSingle,
+                    next: 0,
+                },
+                Some(shared.verif_snapshot()),
+            );
             // SAFETY: `index` is in bounds, the slot is uninitialized
             let slot = unsafe { &mut *slots.get_unchecked(index as usize).get() };
             Ok((index + TERMINALS as u32, slot))
@@ -737,29 +840,73 @@ where
         LOCAL_STORE_STATE.with(|state| {
             if state.current_store.get() == addr(self) {
                 slot.next_free = state.next_free.get();
+                #[cfg(oxidd_verif)]
+                let verif_prev = state.next_free.get();
                 state.next_free.set(id);
 
                 let delta = state.node_count_delta.get() - 1;
                 if delta > -(CHUNK_SIZE as i32) {
                     state.node_count_delta.set(delta);
+                    #[cfg(oxidd_verif)]
+                    va::log(
+                        addr(self),
+                        va::Kind::Free {
+                            slot: id,
+                            prev: verif_prev,
+                        },
+                        None,
+                    );
                 } else {
                     let mut shared = self.state.lock();
                     #[cfg(oxidd_verif)]
                     let _tok = vl::token(vl::Class::StoreState, 0, vl::Mode::Excl, true);
+                    #[cfg(oxidd_verif)]
+                    let (verif_head, verif_delta) =
+                        (state.next_free.get(), state.node_count_delta.get());
                     shared.next_free.push(state.next_free.replace(0));
                     shared.node_count += state.node_count_delta.replace(0) as i64;
+                    #[cfg(oxidd_verif)]
+                    va::log(
+                        addr(self),
+                        va::Kind::FreeHandOver {
+                            slot: id,
+                            prev: verif_prev,
+                            head: verif_head,
+                            delta: verif_delta,
+                            local_after: state.next_free.get(),
+                        },
+                        Some(shared.verif_snapshot()),
+                    );
                 }
             } else {
                 #[cold]
-                fn return_slot<N>(shared: &Mutex<SharedStoreState>, slot: &mut Slot<N>, id: u32) {
+                fn return_slot<N>(
+                    shared: &Mutex<SharedStoreState>,
+                    slot: &mut Slot<N>,
+                    id: u32,
+                    #[cfg(oxidd_verif)] store: usize,
+                ) {
                     let mut shared = shared.lock();
                     #[cfg(oxidd_verif)]
                     let _tok = vl::token(vl::Class::StoreState, 0, vl::Mode::Excl, true);
                     slot.next_free = shared.next_free.pop().unwrap_or(0);
                     shared.next_free.push(id);
                     shared.node_count -= 1;
+                    #[cfg(oxidd_verif)]
+                    va::log(
+                        store,
+                        va::Kind::ForeignFree {
+                            slot: id,
+                            // SAFETY: we just wrote `next_free`
+                            prev: unsafe { slot.next_free },
+                        },
+                        Some(shared.verif_snapshot()),
+                    );
                 }
+                #[cfg(not(oxidd_verif))]
                 return_slot(&self.state, slot, id);
+                #[cfg(oxidd_verif)]
+                return_slot(&self.state, slot, id, addr(self));
             }
         });
     }
@@ -857,6 +1004,7 @@ where
             slots: &[UnsafeCell<Slot<N>>],
             shared_state: &Mutex<SharedStoreState>,
             terminals: u32,
+            #[cfg(oxidd_verif)] store: usize,
         ) {
             LOCAL_STORE_STATE.with(|local| {
                 let start = local.initialized.get();
@@ -886,7 +1034,25 @@ where
                 if next_free != 0 {
                     shared.next_free.push(next_free);
                 }
+                #[cfg(oxidd_verif)]
+                let verif_delta = local.node_count_delta.get();
                 shared.node_count += local.node_count_delta.replace(0) as i64;
+                #[cfg(oxidd_verif)]
+                va::log(
+                    store,
+                    va::Kind::SessionEnd {
+                        returned: true,
+                        head: next_free,
+                        start,
+                        end: if start % CHUNK_SIZE != 0 {
+                            (start / CHUNK_SIZE + 1) * CHUNK_SIZE
+                        } else {
+                            start
+                        },
+                        delta: verif_delta,
+                    },
+                    Some(shared.verif_snapshot()),
+                );
             });
         }
 
@@ -899,7 +1065,28 @@ where
                 || local.initialized.get() % CHUNK_SIZE != 0
                 || local.node_count_delta.get() != 0
             {
+                #[cfg(not(oxidd_verif))]
                 return_preallocated(&self.0.inner_nodes.slots, &self.0.state, TERMINALS as u32);
+                #[cfg(oxidd_verif)]
+                return_preallocated(
+                    &self.0.inner_nodes.slots,
+                    &self.0.state,
+                    TERMINALS as u32,
+                    addr(self.0),
+                );
+            } else {
+                #[cfg(oxidd_verif)]
+                va::log(
+                    addr(self.0),
+                    va::Kind::SessionEnd {
+                        returned: false,
+                        head: 0,
+                        start: local.initialized.get(),
+                        end: local.initialized.get(),
+                        delta: 0,
+                    },
+                    None,
+                );
             }
         });
     }
@@ -2400,7 +2587,9 @@ pub fn new_manager<
     let store_addr = addr(&*arc);
     arc.workers.pool.spawn_broadcast(move |_| {
         // The workers are dedicated to this store.
-        LOCAL_STORE_STATE.with(|state| state.current_store.set(store_addr))
+        LOCAL_STORE_STATE.with(|state| state.current_store.set(store_addr));
+        #[cfg(oxidd_verif)]
+        va::log(store_addr, va::Kind::Attach, None);
     });
 
     // spell-checker:ignore mref
@@ -2410,6 +2599,8 @@ pub fn new_manager<
         .spawn(move || {
             // The worker is dedicated to this store.
             LOCAL_STORE_STATE.with(|state| state.current_store.set(store_addr));
+            #[cfg(oxidd_verif)]
+            va::log(store_addr, va::Kind::Attach, None);
 
             let store = &*gc_mref.0;
             loop {
@@ -2443,10 +2634,21 @@ pub fn new_manager<
                 let mut shared = store.state.lock();
                 #[cfg(oxidd_verif)]
                 let _tok = vl::token(vl::Class::StoreState, 0, vl::Mode::Excl, true);
+                #[cfg(oxidd_verif)]
+                let mut verif_ev = (0, 0, 0);
                 LOCAL_STORE_STATE.with(|local| {
                     if local.next_free.get() != 0 {
+                        #[cfg(oxidd_verif)]
+                        {
+                            verif_ev.0 = local.next_free.get();
+                            verif_ev.1 = local.node_count_delta.get();
+                        }
                         shared.node_count += local.node_count_delta.replace(0) as i64;
                         shared.next_free.push(local.next_free.replace(0));
+                    }
+                    #[cfg(oxidd_verif)]
+                    {
+                        verif_ev.2 = local.next_free.get();
                     }
                 });
 
@@ -2454,6 +2656,16 @@ pub fn new_manager<
                 {
                     shared.gc_state = GCState::Init;
                 }
+                #[cfg(oxidd_verif)]
+                va::log(
+                    store_addr,
+                    va::Kind::GcHandOver {
+                        head: verif_ev.0,
+                        delta: verif_ev.1,
+                        local_after: verif_ev.2,
+                    },
+                    Some(shared.verif_snapshot()),
+                );
             }
         })
         .unwrap();
